@@ -21,7 +21,7 @@ RULE = ("generated fragment-F domains with unconditional, conditional (when) and
         "discrete and numeric effects x states x type-correct calls, restricted to calls the reference finds "
         "applicable and whose simultaneously firing effects are consistent (others counted as skipped); every case is "
         "applied under the natural order and under drawn permutations of the lifted and grounded effect collections "
-        "and of the object table (every other permuted run passes allow_inapplicable_actions=True, which must not matter for an applicable action).  Non-trivial = the action has a conditional or quantified effect whose condition is "
+        "and of the object table (every other permuted run passes allow_inapplicable_actions=True, which must not matter for an applicable action; the first permuted run and every third natural run apply the Operator object a second time).  Non-trivial = the action has a conditional or quantified effect whose condition is "
         "false for one instantiation and true for another (over the probes of the case), or a numeric effect reading "
         "a fluent that another effect of the same action writes.  Distinct by (action, call, state).")
 ASSUMPTIONS = ["object table = problem objects plus domain constants",
@@ -32,7 +32,7 @@ ASSUMPTIONS = ["object table = problem objects plus domain constants",
 N_SCHEDULES = 3
 
 
-def lib_apply(domain, action_name, args, objs, state, ints=None, k=None, allow=False):
+def lib_apply(domain, action_name, args, objs, state, ints=None, k=None, allow=False, warm_state=None):
     from pddl_plus_parser.models import Operator
 
     def run():
@@ -45,6 +45,10 @@ def lib_apply(domain, action_name, args, objs, state, ints=None, k=None, allow=F
         if k is not None:
             op.ground()
             sched.permute_operator(op, ints, k)
+        if warm_state is not None:
+            # the same Operator object applied before, to an equal state built separately: an operator may be
+            # applied any number of times
+            op.apply(warm_state)
         return read_lib_state(op.apply(state, allow_inapplicable_actions=True) if allow else op.apply(state))
     return lib_call(run)
 
@@ -144,7 +148,8 @@ def check_case(case):
                 # odd probes: facts also stored under their arguments' own (sub)types, as earlier add effects leave them
                 state = build_state(domain, world, st, variants=(i % 2 == 1))
             # the action is applicable: allow_inapplicable_actions must make no difference (every other schedule)
-            ok2, got = lib_apply(domain, a["name"], pr["args"], objs, state, ints, k, allow=(k is not None and k % 2 == 1))
+            warm = build_state(domain, world, st) if (k == 0 or (k is None and i % 3 == 2)) else None
+            ok2, got = lib_apply(domain, a["name"], pr["args"], objs, state, ints, k, allow=(k is not None and k % 2 == 1), warm_state=warm)
             tag = "C03/successor" if k is None else "C03/successor-permuted"
             if not ok2 and model == "any":
                 res.known.append(S.F_NESTED)
